@@ -832,6 +832,95 @@ func checkC16(d *lib.Driver, c *c16Case) error {
 			}
 		}
 	}
+	// 0. the OTHER half and the theorem (route decompose): the model of alt.Decompose as it is now gives
+	// the tree the implementation gave (so a defect that breaks both halves consistently — the same
+	// wrong key written and read — still shows), and where the hypotheses of the round-trip theorem
+	// (OjgVerif.C16.recompose_inverts_decompose_history: rtOK under the options as the code reads them, no interface slot) hold
+	// for this (type, value, options) the implementation must give the value back, no known finding
+	// accepted as an excuse
+	theoremApplies := false
+	if d != nil && c.route == "decompose" {
+		w := strings.Split(c.spec.word(false, false), " ")
+		ty, val := c.d.String(), valueString(c.d, c.v)
+		ans, err := d.Ask([]string{encReq("alt", "xy", c.spec, false, false, ty, val),
+			strings.Join([]string{"rtok", w[0], w[1], w[2], ty, val}, "\t")})
+		if err != nil {
+			return err
+		}
+		switch ans[0] {
+		case "outside", "bad-op":
+			rep.Count("model.decompose."+ans[0], 1)
+		default:
+			if m, got := modelOutcome(ans[0]), canonModel(canonTree(t)); m == got {
+				rep.Count("model.decompose.matches", 1)
+			} else {
+				rp := c.replay()
+				rp["model"], rp["implementation"] = m, got
+				rep.Add(lib.Finding{Kind: "disagreement", Class: "model:decompose", Replay: rp,
+					What: fmt.Sprintf("alt.Decompose gives %s, the model of alt.Decompose (Dev.current) %s", got, m)})
+			}
+		}
+		switch ans[1] {
+		case "yes":
+			theoremApplies = true
+			rep.Count("theorem.applies", 1)
+		case "no":
+			rep.Count("theorem.hypotheses_not_met", 1)
+			// which feature of the type keeps the case outside (several may apply; "other": a key collision,
+			// an integer outside its width, a non-zero unexported field …)
+			toks, why := " "+ty+" ", 0
+			for _, f := range [][2]string{{" e ", "embedded_field"}, {" I ", "interface_slot"}, {" y ", "byte_slice"}} {
+				if strings.Contains(toks, f[0]) {
+					rep.Count("theorem.outside."+f[1], 1)
+					why++
+				}
+			}
+			if c.spec.NestEmbed {
+				rep.Count("theorem.outside.nest_embed", 1)
+				why++
+			}
+			if c.spec.UseTags && strings.Contains(ty, lib.HexF([]byte(",string"))) {
+				rep.Count("theorem.outside.string_tag_option", 1)
+				why++
+			}
+			if why == 0 {
+				rep.Count("theorem.outside.other", 1)
+			}
+		default:
+			rep.Add(lib.Finding{Kind: "disagreement", Class: "driver:" + ans[1], What: "the driver refused an rtok request", Replay: c.replay()})
+		}
+	}
+	if d != nil && c.route == "oj" {
+		// the writer half of the Marshal/Unmarshal route: the model of oj.Marshal as it is now describes the
+		// tree the (plain) parser reads from the text Marshal wrote
+		ans, err := d.Ask([]string{encReq("oj", "xy", c.spec, false, true, c.d.String(), valueString(c.d, c.v))})
+		if err != nil {
+			return err
+		}
+		switch ans[0] {
+		case "outside", "bad-op":
+			rep.Count("model.marshal."+ans[0], 1)
+		default:
+			if m, got := modelOutcome(ans[0]), canonModel(canonTree(t)); m == got {
+				rep.Count("model.marshal.matches", 1)
+			} else {
+				rp := c.replay()
+				rp["model"], rp["implementation"] = m, got
+				rep.Add(lib.Finding{Kind: "disagreement", Class: "model:marshal", Replay: rp,
+					What: fmt.Sprintf("oj.Marshal's text reads as %s, the model of oj.Marshal (Dev.current) gives %s", got, m)})
+			}
+		}
+	}
+	if theoremApplies {
+		for i, got := range []string{norm0, normH} {
+			if got != want {
+				rp := c.replay()
+				rp["got"], rp["want"], rp["with_history"] = got, want, i == 1
+				rep.Add(lib.Finding{Kind: "disagreement", Class: "theorem:inverse-fails-where-proved", Replay: rp,
+					What: fmt.Sprintf("the round-trip theorem applies (rtOK, no interface slot) but Recompose(Decompose(v)) = %s, want %s", got, want)})
+			}
+		}
+	}
 	// I. inverse, without history (the Marshal route writes no create key: a struct held by an interface
 	// cannot come back, the property asks for a create key there)
 	fc := valFacts{ck: c.createKey()}
@@ -1165,6 +1254,105 @@ func boundaryC16(emit func(*c16Case)) {
 	}
 }
 
+// collidingC16: struct types in which one field's TAG NAME is a spelling (exact, first letter lowered,
+// all lower case) of a DIFFERENT field's Go name, Go names that are spellings of sibling tags, tags
+// that differ in case only, and a field whose Go name spells the create key — scalar fields of
+// different kinds, so that a member assigned to the wrong field shows as a different value or as a
+// conversion error. recomp's struct case looks a member up under the index key (the tag name) FIRST and
+// under the spellings of the Go name only when there is none (seeded C16-m8 reversed that order and was
+// missed: no generated type had such names). Only tag-using writers (UseTags; oj.Marshal), no
+// omitempty and no nil: a member that is absent falls through to the Go-name spellings by design.
+func collidingC16(seed uint64, emit func(*c16Case)) {
+	r := lib.NewRng(seed ^ 0xC0111DE)
+	kinds := []reflect.Type{stringType, reflect.TypeOf(int(0)), reflect.TypeOf(float64(0)), reflect.TypeOf(false), reflect.TypeOf(uint16(0)), reflect.TypeOf(int8(0))}
+	spell := func(n string, k int) string {
+		switch k {
+		case 0:
+			return n
+		case 1:
+			return strings.ToLower(n[:1]) + n[1:]
+		}
+		return strings.ToLower(n)
+	}
+	fld := func(name, tag string, t reflect.Type) reflect.StructField {
+		f := reflect.StructField{Name: name, Type: t}
+		if tag != "" {
+			f.Tag = reflect.StructTag(`json:"` + tag + `"`)
+		}
+		return f
+	}
+	var types []reflect.Type
+	types = append(types,
+		reflect.StructOf([]reflect.StructField{fld("Kind", "type", stringType), fld("Type", "kind", kinds[1])}),
+		reflect.StructOf([]reflect.StructField{fld("V", "value", kinds[2]), fld("Value", "label", stringType)}),
+		reflect.StructOf([]reflect.StructField{fld("Alpha", "name", stringType), fld("Beta", "Name", kinds[1]), fld("Name", "alpha", kinds[3])}),
+		reflect.StructOf([]reflect.StructField{fld("Type", "kind", kinds[1]), fld("Other", "", stringType)}),
+		reflect.StructOf([]reflect.StructField{fld("Count", "Size", stringType), fld("Size", "count", kinds[4]), fld("Key", "", kinds[2])}),
+	)
+	pool := []string{"Kind", "Type", "Value", "Label", "Name", "Key", "Count", "Size", "Alpha", "Beta"}
+	for i := 0; i < 40; i++ {
+		n := 2 + r.Intn(3)
+		perm := make([]int, len(pool))
+		for j := range perm {
+			perm[j] = j
+		}
+		for j := len(perm) - 1; j > 0; j-- {
+			k := r.Intn(j + 1)
+			perm[j], perm[k] = perm[k], perm[j]
+		}
+		perm = perm[:n]
+		k0 := r.Intn(len(kinds))
+		var fs []reflect.StructField
+		for j := 0; j < n; j++ {
+			// the tag of field j spells the Go name of the NEXT field (cyclically); neighbours differ in kind
+			tag := spell(pool[perm[(j+1)%n]], r.Intn(3))
+			if r.Intn(6) == 0 {
+				tag = "" // an untagged field among them: its Go name may spell a sibling's tag
+			}
+			fs = append(fs, fld(pool[perm[j]], tag, kinds[(k0+j)%len(kinds)]))
+		}
+		// the keys the tag-using writers write (tag name, else the exact Go name) must be distinct: two
+		// members under one key is a collision in the TREE, not in the decoder's lookup
+		written, dup := map[string]bool{}, false
+		for _, f := range fs {
+			k, _ := f.Tag.Lookup("json")
+			if k == "" {
+				k = f.Name
+			}
+			dup = dup || written[k]
+			written[k] = true
+		}
+		if dup {
+			continue
+		}
+		types = append(types, reflect.StructOf(fs))
+	}
+	for ti, rt := range types {
+		d, ok := describe(rt)
+		if !ok {
+			continue
+		}
+		hasTypeTag := false
+		for i := 0; i < rt.NumField(); i++ {
+			if tag, _ := rt.Field(i).Tag.Lookup("json"); tag == "type" {
+				hasTypeTag = true
+			}
+		}
+		for vi := 0; vi < 2; vi++ {
+			vg := &valGen{r: lib.NewRng(seed + uint64(ti*7+vi)), c16: true, noNil: true}
+			v := vg.newValue(rt, 2)
+			for pi, spec := range c16Plans[2:] {
+				if pi == 1 && hasTypeTag {
+					continue // the create key "type" and a member named "type" would collide in the tree itself
+				}
+				for _, route := range c16Routes {
+					emit(&c16Case{d: d, v: v, spec: spec, route: route, useDefault: vi == 1 && route != "decompose", byPtr: vi == 1})
+				}
+			}
+		}
+	}
+}
+
 func runC16() error {
 	if *replay != "" {
 		return replayC16()
@@ -1206,6 +1394,7 @@ func runC16() error {
 				boundaryC16(func(c *c16Case) { emit(c); rep.Count("stream.boundary", 1) })
 				boundaryValues16(func(c *c16Case) { emit(c); rep.Count("stream.boundary_values", 1) })
 				selfEmbC16() // self-embedding types: outside the model, deep equality
+				collidingC16(*seed, func(c *c16Case) { emit(c); rep.Count("stream.colliding_names", 1) })
 			}
 			genC16(r, perWorker, func(c *c16Case) { emit(c); rep.Count("stream.random", 1) })
 		}(w)
